@@ -169,7 +169,11 @@ def handle : Handler := fun j a => do
   -- unreachable hosts receive no statement in the freeze phases: their (failed) model steps are not observable
   let reach := fun (h : String) => (pingOk cs h == some true)
   let proj := fun (i : In) => canon (((performSwitchover cfg i).filterMap project).filter fun o => (o.ok || o.s == "lockCheck") && !((o.s == "freezeRO" || o.s == "stopIO") && !reach o.host))
-  let found := variants.find? fun i => proj i == target
+  -- the freeze statements of a node that is killed during the procedure are ambiguous evidence: the server may have executed
+  -- (and logged) the statement while the client saw the connection die — they are left out of the comparison on both sides
+  let victim0 := match jOpt j "fault" with | some f => jStrOr f "kill" "" | none => ""
+  let dropV := fun (l : List Obs) => if victim0 == "" then l else l.filter fun o => !((o.s == "freezeRO" || o.s == "stopIO") && o.host == victim0)
+  let found := variants.find? fun i => dropV (proj i) == dropV target
   if panicked != "" then
     a := a.tag "c01:panic"
     a := a.mismatch s!"c01 panic '{panicked}' on {j.compress}"
